@@ -57,6 +57,7 @@ def correspondence(ctx):
                       "unit": "num", "t": float(f"{10 ** rng.uniform(5, 9):.4g}").hex(), "tunit": "s", "cum": True})
     D.decay_stream(rng, cases, "check_hp_decay Default", "cumulative_hp", streams, viol, samples,
                    "InventoryHP.cumulative_decays: relative 1e-13 of the proved enclosure", shard=2)
+    D.balance_stream(rng, 120 if ctx["tier"] == "thorough" else 30, streams, viol, samples)
     import corr_floateval as FE
     FE.floateval_stream(rng, 400 if ctx["tier"] == "thorough" else 40, streams, viol, samples, which=("cum",))
     FE.floateval_stream(rng, 100 if ctx["tier"] == "thorough" else 20, streams, viol, samples, which=("cum",), ds="synth")
